@@ -196,6 +196,23 @@ CHECKS = {
              "pointers not generated).",
         technique="Lean 4 proof (laws of a small-step object model) + differential correspondence on generated call sequences",
         ref="DESIGN.md §6 C12"),
+    "C13": dict(
+        text="Lean 4 theorems (CbProps/C13.lean) on the decision logic (CbModel/EnumM.lean): match selects arm i iff pattern i "
+             "applies and no earlier one does; no applicable arm = no arm selected (error); a wildcard makes the match total; "
+             "the binding is the scrutinee's payload; `?` chains: the result is the first Err and exactly the markers before it "
+             "were printed; nests of depth d: the outermost failing level's Err with NO marker, else Ok(base + addends) and all "
+             "markers innermost first; try/checked = Ok(v) iff the operand evaluates to v. Obligation (decide +kernel) on the "
+             "classifier rules regenerated from classify_runtime_error on every run: the messages of the /, %, index and "
+             "dereference sites map to DivisionByZeroError / IndexOutOfBoundsError / NullPointerError. Tie: generated programs: "
+             "enum shapes x arm lists (exhaustive for 3 variants, <= 3 arms) x 9 transport modes x boundary payloads; ? chains "
+             "and nests to depth 5 with the failing link at every position; random core expressions under try/checked with "
+             "CbRef deciding value or error class.",
+        note="Enum value transport is modelled as the identity (payload_preserved is definitional); the tie carries that "
+             "part. Payload types int/long/string only. 8 listed findings on the pinned tree (long payload beyond int, empty "
+             "string payload, constructor assignment ignored, unit variants lost, constructor argument rejected, string lost "
+             "via return-initialiser, try as initialiser, binding scope).",
+        technique="Lean 4 proof (decision-logic laws) + translator-regenerated classifier table with a kernel-decided obligation + differential correspondence on generated programs",
+        ref="DESIGN.md §6 C13"),
 }
 
 PENDING = {}
